@@ -722,7 +722,8 @@ func verifH_E2E() {
 	}
 	binWhere, binInvalid := -1, false
 	if inG(5) {
-		binWhere = verifChoice("binaryValueIn", 3) // 0 request metadata, 1 response headers, 2 trailers
+		// 0 request metadata, 1 response headers, 2 trailers, 3 the handler's status message, 4 the method name
+		binWhere = verifChoice("binaryValueIn", 5)
 		binInvalid = verifBool("notUTF8")
 		bv := "\xc3\xa9\x00" // valid UTF-8: e-acute, NUL
 		if binInvalid {
@@ -733,6 +734,14 @@ func verifH_E2E() {
 			app.setHeader, app.hdr = true, metadata.MD{"hk-bin": {"ok", bv}}
 		case 2:
 			app.setTrailer, app.tlr = true, metadata.MD{"tk-bin": {bv}}
+		case 3:
+			// (Go strings hold any bytes: an error text built from binary data is an everyday case)
+			app.code, app.msg = codes.DataLoss, "bad record "+bv
+			if !ss {
+				app.responses = nil
+			}
+		case 4:
+			method = method + bv // no such method, whatever its bytes: the call is refused, alone
 		}
 	}
 	withReqMD := (inG(0) && verifBool("callerAttachesMetadata")) || binWhere == 0
@@ -910,7 +919,7 @@ func verifH_E2E() {
 	} else {
 		var err error
 		st, err = ch.NewStream(ctx, &grpc.StreamDesc{ClientStreams: cs, ServerStreams: ss}, method, grpc.Header(&hdrT), grpc.Trailer(&tlrT), WithTunnelChannel(&usedCh))
-		if binInvalid && binWhere == 0 && err != nil {
+		if binInvalid && (binWhere == 0 || binWhere == 4) && err != nil {
 			// the RPC is refused at the start because its metadata cannot be carried (F9): the
 			// refusal must stay an affair of this RPC - the rest of the harness checks the tunnel
 			final, finished, st = err, true, nil
@@ -966,7 +975,17 @@ afterCall:
 	}
 	okOutcome := (ss && final == io.EOF) || (!ss && final == nil)
 	handlerOutcome := false // the caller's result is the handler's
-	if binInvalid && binWhere == 0 {
+	if binWhere == 4 {
+		// a method that does not exist: refused with an error, no handler, and (asserted above) the tunnel lives
+		verifCover("e2e-odd-method-name")
+		verifAssert(final != nil && final != io.EOF && len(app.calls) == 0, "C03+C08.e2e-call-to-a-method-name-with-odd-bytes-is-refused-alone")
+	} else if binInvalid && binWhere == 3 {
+		// the status code is the handler's; a message that is not valid UTF-8 cannot be carried as it is (F9)
+		verifCover("e2e-unencodable-status-message")
+		verifAssert(status.Code(final) == app.code, "C02+C03.e2e-status-code-exact-whatever-the-message-bytes")
+		sp, _ := status.FromError(final)
+		verifAssert(sp.Message() == app.msg, "C02.e2e-status-message-that-is-not-utf8-is-delivered-exactly")
+	} else if binInvalid && binWhere == 0 {
 		// C02 as stated: binary values are delivered exactly and the RPC runs as any other
 		verifCover("e2e-unencodable-request-metadata")
 		verifAssert(okOutcome && len(app.calls) == 1 && vSameMD(app.inMD, reqMD), "C02.e2e-bin-request-metadata-that-is-not-utf8-is-delivered-exactly")
